@@ -127,6 +127,52 @@ Section Shmem.
   Definition shmem_memcpy (f : flavour) (src : nat -> list Z) (r : nat) : list Z := src (writer_of f r).
 End Shmem.
 
+(* ---- sc_shmem_allgather with separate send and receive signatures ------------------------------------------------ *)
+(* A signature (count, size of the datatype in bytes) describes count * size bytes.  The data are BYTES here: `contrib q`
+   is the send buffer of rank q.  MPI_Gather at the root / MPI_Allgather on a communicator with member list ms: every
+   member sends what `snd` describes, the receiver describes ONE block by `rcv` and provides a buffer of `room` bytes; the
+   call is defined (MPI: matching signatures, no truncation, no overrun) when both describe the same number of bytes, every
+   send buffer holds that many, and the blocks fit; block i then sits at byte i * sig_bytes rcv. *)
+Record sig := mk_sig { sg_count : nat; sg_size : nat }.
+Definition sig_bytes (g : sig) : nat := sg_count g * sg_size g.
+Definition sig_times (k : nat) (g : sig) : sig := mk_sig (sg_count g * k) (sg_size g).      (* count * intrasize *)
+Definition coll_gather (ms : list nat) (f : nat -> list Z) (snd rcv : sig) (room : nat) : option (list Z) :=
+  if (sig_bytes snd =? sig_bytes rcv) && forallb (fun q => length (f q) =? sig_bytes snd) ms && (length ms * sig_bytes rcv <=? room)
+  then Some (concat (map f ms)) else None.
+
+Section ShmemSig.
+  Variable P : nat.
+  Variable comms : nat -> option node_comms.
+  Variable contrib : nat -> list Z.
+  Variables snd rcv : sig.            (* (sendcount, size of sendtype), (recvcount, size of recvtype) as passed to sc_shmem_allgather *)
+  Variable room : nat.                (* bytes of the array passed as recvbuf *)
+
+  (* sc_shmem_allgather_common, the node root q: SC_ALLOC (intrasize * recvcount * sizeof (recvtype)), then
+     MPI_Gather (sendbuf, sendcount, sendtype, buffer, recvcount, recvtype, 0, intranode) *)
+  Definition node_buffer (q : nat) : option (list Z) :=
+    match comms q with
+    | Some ncq => coll_gather (intra ncq) contrib snd rcv (length (intra ncq) * (sg_count rcv * sg_size rcv))
+    | None => None
+    end.
+  Definition is_some {B} (o : option B) : bool := match o with Some _ => true | None => false end.
+  Definition or_nil (o : option (list Z)) : list Z := match o with Some l => l | None => [] end.
+
+  (* basic flavours: MPI_Allgather (sendbuf, sendcount, sendtype, recvbuf, recvcount, recvtype, comm);
+     window flavours: the node roots, then MPI_Allgather (buffer, sendcount * intrasize, sendtype, recvbuf,
+     recvcount * intrasize, recvtype, internode) by the writer.  None: some MPI call is erroneous. *)
+  Definition shmem_allgather_sig (f : flavour) (r : nat) : option (list Z) :=
+    if shared_on comms f r then
+      match comms (writer_of comms f r) with
+      | Some nc =>
+        let k := length (intra nc) in
+        if forallb (fun q => is_some (node_buffer q)) (inter nc)
+        then coll_gather (inter nc) (fun q => or_nil (node_buffer q)) (sig_times k snd) (sig_times k rcv) room
+        else None
+      | None => None
+      end
+    else coll_gather (seq 0 P) contrib snd rcv room.
+End ShmemSig.
+
 (* ---- the lock / barrier protocol of the window flavours on one node ------------------------------------- *)
 (* sc_shmem_write_start_window: unlock the shared lock, barrier on the node, then intranode rank 0 takes the exclusive lock;
    sc_shmem_write_end_window: the writer unlocks, barrier on the node, everybody takes the shared lock again.  Both locks are
